@@ -526,3 +526,70 @@ impl Wire for ScriptWire {
         res
     }
 }
+
+// ---------------------------------------------------------------------------------------------
+// PipeWire: one end of a simulated full-duplex serial line between two scheduled nodes (C17)
+// ---------------------------------------------------------------------------------------------
+
+#[derive(Debug)]
+pub struct PipeWire {
+    pub cx: Cx,
+    pub sched: crate::sched::Sched,
+    pub me: usize,
+    pub rx: usize,
+    pub tx: usize,
+    pub frag: bool,
+    pub eintr_den: u64,
+    pub eintr_run: u32,
+    pub short_writes: bool,
+}
+
+impl PipeWire {
+    fn maybe_eintr(&mut self) -> bool {
+        if self.eintr_den > 0 && self.eintr_run < 3 && self.cx.chance(1, self.eintr_den) {
+            self.eintr_run += 1;
+            self.cx.fault("eintr");
+            true
+        } else {
+            self.eintr_run = 0;
+            false
+        }
+    }
+}
+
+impl Wire for PipeWire {
+    fn wire_read(&mut self, buf: &mut [u8], timeout: Duration) -> io::Result<usize> {
+        if self.maybe_eintr() {
+            return Err(io::Error::new(io::ErrorKind::Interrupted, "simulated EINTR"));
+        }
+        if buf.len() > 1 {
+            self.cx.probe("reader_offered_gt_1_byte");
+        }
+        let r = self.sched.pipe_read(self.me, self.rx, buf, timeout, self.frag);
+        if let Err(e) = &r {
+            if e.kind() == io::ErrorKind::TimedOut {
+                self.cx.fault("timeout");
+            }
+        }
+        r
+    }
+
+    fn wire_write(&mut self, buf: &[u8]) -> io::Result<usize> {
+        if self.maybe_eintr() {
+            return Err(io::Error::new(io::ErrorKind::Interrupted, "simulated EINTR"));
+        }
+        if buf.is_empty() {
+            return Ok(0);
+        }
+        let n = if self.short_writes {
+            let cut = self.cx.draw(buf.len() as u64) as usize;
+            if cut > 0 {
+                self.cx.fault("short_write");
+            }
+            buf.len() - cut
+        } else {
+            buf.len()
+        };
+        self.sched.pipe_write(self.me, self.tx, &buf[..n])
+    }
+}
